@@ -240,7 +240,9 @@ func (b *tableParagraphTransformer) parseRow(segment text.Segment,
 		row.AppendChild(row, node)
 		pos = closure + 1
 	}
-	for ; i < len(alignments); i++ {
+	// only body rows are padded: a header row with fewer cells than the delimiter row
+	// must not match it (the caller compares the cell counts)
+	for ; !isHeader && i < len(alignments); i++ {
 		row.AppendChild(row, ast.NewTableCell())
 	}
 	return row
